@@ -164,7 +164,16 @@ func reNodeLineString(ls LineString, appendCuts func(line, []XY) []XY) LineStrin
 		sort.Slice(cuts, func(i, j int) bool {
 			distI := ln.a.distanceSquaredTo(cuts[i])
 			distJ := ln.a.distanceSquaredTo(cuts[j])
-			return distI < distJ
+			if distI != distJ {
+				return distI < distJ
+			}
+			// Distinct cuts can be equally far from the start of the line.
+			// Break the tie by coordinates, so that the order of the cuts
+			// (and therefore the result of the overlay) doesn't depend on
+			// the order that the cuts were found in. That order isn't
+			// stable between calls, because the cut candidates come from
+			// iterating over a map.
+			return cuts[i].Less(cuts[j])
 		})
 		cuts = uniquifyGroupedXYs(cuts)
 
